@@ -13,6 +13,7 @@ AllOk(evs) == \A i \in 1..Len(evs) : evs[i].res = "ok"
 Flat(kind, id, ty, val) == [kind |-> kind, id |-> id, ty |-> ty, val |-> val, kids |-> <<>>, off |-> -1]
 TagsOf(e, openIds) ==
   CASE e.k \in {"elem", "rawtag"} -> <<Flat(IF e.k = "rawtag" THEN "raw" ELSE "elem", e.id, e.ty, e.val)>>
+    [] e.k = "write_raw" -> <<Flat("raw", WStrip(e.id), "raw", e.val)>>          \* (drivers use ids outside the specification)
     [] e.k \in {"start", "start_unknown_dep"} -> <<Flat("start", e.id, "master", <<>>)>>
     [] e.k = "end" -> <<Flat("end", e.id, "master", <<>>)>>
     [] e.k = "full" -> UnrollKid([kind |-> "full", id |-> e.id, ty |-> "master", val |-> <<>>, kids |-> e.kids])
